@@ -108,7 +108,12 @@ def mutants(seed, only=None, kind='mutants'):
         if prop not in worlds.REGISTRY:
             print('%-40s %s not claimed: skipped' % (name, prop))
             continue
-        code, out, wall = run_against(patch, prop, seed)
+        try:
+            code, out, wall = run_against(patch, prop, seed)
+        except RuntimeError as e:
+            print('%-40s %s DOES-NOT-APPLY %s' % (name, prop, str(e)[:120].replace('\n', ' ')))
+            rc = 2
+            continue
         caught = code == 1 and 'VIOLATION property=%s' % prop in out
         inv = ''
         for line in out.splitlines():
